@@ -60,7 +60,9 @@ def build_harness(ctx):
     def one(src):
         name = os.path.basename(src)[:-4]
         t0 = time.time()
-        exe = vcheck.cxx_build(src, os.path.join(bindir, name), hook=True, extra=("-DC20_HDR_HASH=0x%s" % hdr, "-I" + HDIR), timeout=1800)
+        exe = vcheck.cxx_build(src, os.path.join(bindir, name), hook=True, extra=("-DC20_HDR_HASH=0x%s" % hdr, "-I" + HDIR,
+                                      "-Wl,--no-as-needed", "-lboost_thread", "-lboost_system"),     # flat combining uses boost::thread_specific_ptr
+                               timeout=1800)
         return name, exe, time.time() - t0
 
     with ThreadPoolExecutor(max_workers=max(2, vcheck.NCPU)) as ex:
@@ -356,6 +358,10 @@ def run_variant(v, path, hp="", dhp="", timeout=1200):
         return 124, o + "\n[timeout]"
 
 
+PUSH_NAMES = ("push", "enq", "emp", "pushw")
+POP_NAMES = ("pop", "deq", "popw")
+
+
 def seg_model_input(seqs, impl):
     """SegmentedQueue with a random permutation: the observed pops are given to the (nondeterministic) specification"""
     out = []
@@ -363,14 +369,14 @@ def seg_model_input(seqs, impl):
         lines = impl.get(sid, [])
         toks = []
         for i, o in enumerate(ops):
-            if o in ("pop", "deq"):
+            if o in POP_NAMES:
                 obs = -1
                 if i < len(lines):
                     m = re.match(r"\d+ v(-?\d+)", lines[i])
                     if m: obs = int(m.group(1))
                     elif not re.match(r"\d+ none", lines[i]): obs = -2      # unparsable: the model will reject
                 toks.append("pop:%d" % obs)
-            elif o.split(":")[0] in ("push", "enq"):
+            elif o.split(":")[0] in PUSH_NAMES:
                 toks.append("push:" + o.split(":")[1])
             else:
                 toks.append(o)
@@ -396,9 +402,9 @@ def first_mismatch(kind, seqs, expected, observed):
                 el = e[i].split(" ", 1)[1] if i < len(e) else "<missing>"
                 ol = o[i].split(" ", 1)[1] if i < len(o) else "<missing>"
                 nm = op.split(":")[0]
-                if nm in ("push", "enq"):
+                if nm in PUSH_NAMES:
                     ok = el == "ok" and ol.startswith("b1")
-                elif nm in ("pop", "deq"):
+                elif nm in POP_NAMES:
                     ok = el == "ok"
                 elif nm in ("size", "empty"):
                     ok = ol.split(" ")[0] == el
@@ -598,10 +604,15 @@ def run(ctx):
         note = ""
         if "Cuckoo" in v["name"]:
             note = "cuckoo variant: check against the known C17 defect (resize drops elements when few distinct hash values exist) before treating this as a C20 finding"
+        sig = "c20:%s:%s" % (v["name"], " ".join(mops))
+        if v["name"].startswith("MichaelHashMap_Iterable") and any(op_name(t) == "ups" for t in mops):
+            sig = "michael-map-upsert-bucket-by-value"
+        if "BronsonAVLTreeMap" in v["name"] and mops and mops[-1].split(":")[0] in ("upd", "ups") and mops[-1].endswith(":0") and "p00" in mm2[2]:
+            sig = "bronson-update-noinsert-routing-node"
         ctx.violation(what, {"variant": v["name"], "tu": v["tu"], "kind": v["kind"], "cfg": v["cfg"], "ops": mops, "op_index": mm2[1],
                              "expected": mm2[2], "observed": mm2[3], "original_sequence_length": len(ops), "hp": hp, "dhp": dhp, "note": note,
                              "replay_cmd": "bin/check C20 --replay <this file>"},
-                      signature="c20:%s:%s" % (v["name"], " ".join(mops)))
+                      signature=sig)
     if not res.ok:
         ctx.violation("Coq obligations of C20 do not check: %s" % (res.failed[:2],), {"theorem": [f[2] for f in res.failed], "errors": res.failed[:3]}, no_input=True)
 
